@@ -458,6 +458,8 @@ func (fx *FuncCtx) specCall(env *specEnv, x *ast.CallExpr) sval {
 		c.binds[id.Name] = sval{bv, nil}
 		var rng Term = tTrue
 		var body Term
+		fx.inQuant++
+		defer func() { fx.inQuant-- }()
 		if len(x.Args) == 4 {
 			lo := argT(1)
 			hi := argT(2)
